@@ -358,3 +358,88 @@ def analyze_objects(repo, res):
     uc = out.f.get("unique_coordinate_elements") or []
     if [e.name for e in uc] != ["coordP1", "coordP2"]:
         res.fail(key, f"unique coordinate elements are {uc}, expected those of the forms and of the stand-alone mesh, once each, in a canonical order", loc)
+
+
+@rule(
+    "COMPILE-PIPELINE",
+    ["C20", "C19", "C13"],
+    "compile_ufl_objects interpreted with recording stubs for its four stages: analysis of the given objects with the scalar type of "
+    "the options, IR from that analysis with the caller's object names, namespace, options and visualise flag, code from that IR, "
+    "source from that code, returned with the backend's suffixes; a namespace that is not made of [A-Za-z0-9_] (it becomes part of "
+    "every C identifier: `ffcx -n a-b` would emit `form_a-b_0`) is rejected before anything is generated",
+    min_instances=4,
+)
+def compile_pipeline(repo, res):
+    CM = "ffcx.compiler"
+    m = repo.mod(CM)
+    f = m.func("compile_ufl_objects")
+    res.functions.add(f.key)
+    loc = m.line(f.node)
+
+    def run(namespace, names={7: "a"}, visualise=True):
+        it = Interp(repo, load_classes(repo), primary=CM)
+        log = []
+        it.overrides["time"] = _PyCall(lambda: 0.0)
+        it.overrides["_print_timing"] = _PyCall(lambda *a: None)
+        it.overrides["logger"] = Node("Logger", info=_PyCall(lambda *a: None), debug=_PyCall(lambda *a: None))
+        it.overrides["analyze_ufl_objects"] = _PyCall(lambda objs, st: log.append(("analysis", objs, st)) or "ANALYSIS")
+        it.overrides["compute_ir"] = _PyCall(lambda an, on, ns, opts, vis=False: log.append(("ir", an, on, ns, opts, vis)) or "IR")
+        it.overrides["generate_code"] = _PyCall(lambda ir, opts: log.append(("code", ir, opts)) or ("CODE", (".h", ".c")))
+        it.overrides["format_code"] = _PyCall(lambda code: log.append(("format", code)) or ["H", "C"])
+        import re as _re
+
+        class _Re(PyNative):
+            def fullmatch(self, pat, s_, *a):
+                return _re.fullmatch(pat, s_)
+
+            def match(self, pat, s_, *a):
+                return _re.match(pat, s_)
+
+            def search(self, pat, s_, *a):
+                return _re.search(pat, s_)
+        it.overrides["re"] = _Re()
+        for fn_ in ("fullmatch", "match", "search"):
+            it.overrides[f"re.{fn_}"] = _PyCall(getattr(_Re(), fn_))
+        opts = {"scalar_type": "complex64", "part": "full"}
+        objs = ["form1", "expr1"]
+        kw = {"object_names": dict(names) if names is not None else None, "namespace": namespace, "visualise": visualise}
+        out = it.call_f(f, [objs, opts], kw)
+        return out, log, objs, opts
+
+    key = f"{f.key}:stages-chained"
+    res.ob(key)
+    try:
+        out, log, objs, opts = run("poisson_2")
+        want = [("analysis", objs, "complex64"), ("ir", "ANALYSIS", {7: "a"}, "poisson_2", opts, True), ("code", "IR", opts), ("format", "CODE")]
+        if log != want:
+            res.fail(key, f"the four stages are called as {log}, expected {want}: each stage works on the previous stage's result with the caller's names, namespace, "
+                     "options and visualise flag", loc)
+        if not isinstance(out, tuple) or list(out[0]) != ["H", "C"] or tuple(out[1]) != (".h", ".c"):
+            res.fail(key, f"compile_ufl_objects returns {out!r}, expected (formatted sources, suffixes of the backend)", loc)
+    except Raised as e:
+        res.fail(key, f"compile_ufl_objects raises ({e.what}) on a plain request", loc)
+    key = f"{f.key}:defaults"
+    res.ob(key)
+    try:
+        out, log, objs, opts = run(None, names=None, visualise=False)
+        irc = [e for e in log if e[0] == "ir"]
+        if not irc or irc[0][2] != {} or irc[0][3] != "" or irc[0][5] is not False:
+            res.fail(key, f"without names / namespace the IR stage receives {irc[0][2:] if irc else None}, expected ({{}}, '', options, False)", loc)
+    except Raised as e:
+        res.fail(key, f"compile_ufl_objects raises ({e.what}) without object names and namespace", loc)
+    for ns in ("a-b", "my ns", "x.y", "ns;"):
+        key = f"{f.key}:namespace-rejected:{ns}"
+        res.ob(key)
+        try:
+            out, log, *_ = run(ns)
+            res.fail(key, f"the namespace {ns!r} is accepted and handed to the IR stage; it becomes part of every generated identifier (form_{ns}_<name>, the object names), "
+                     "which is then not a C identifier - the error appears in the C compiler, not in Python", loc)
+        except Raised:
+            pass
+    for ns in ("Poisson", "_x9", "libffcx_forms_0123abcdef"):
+        key = f"{f.key}:namespace-accepted:{ns}"
+        res.ob(key)
+        try:
+            run(ns)
+        except Raised as e:
+            res.fail(key, f"the valid namespace {ns!r} is rejected ({e.what})", loc)
